@@ -10,6 +10,7 @@ import GojaModel.C13.Model
 import GojaModel.C13.Bridge
 import GojaModel.C13.Export
 import GojaModel.C13.MapModel
+import GojaModel.C13.Gateway
 
 namespace GojaModel.C13.Driver
 open GojaModel.C13 GojaModel.Proto
@@ -268,6 +269,50 @@ def runM (ws : List String) : String :=
     " ; ".intercalate outs.reverse
   | _ => "BADLINE"
 
+/-! ### C / J: the call gateways
+    `C nargs variadic l nout lastIsErr errNonNil`: a Go func of `nargs` int parameters (the last `...int` if variadic)
+    called from script with arguments 10, 11, …; answer: what the func received and what the script got back.
+    `J nfixed variadic tail nout lastIsErr threw`: a script function exported to a Go func type and called from Go. -/
+
+def slotVal : Slot → String
+  | .arg j _ _ => toString (10 + j)
+  | .zero _ => "0"
+  | .unset => "UNSET"
+
+def showCallResult (nout : Nat) : CallResult → String
+  | .undefined => "undefined"
+  | .value i => "value " ++ toString (70 + i)
+  | .array n => "array " ++ ",".intercalate ((List.range n).map (fun i => toString (70 + i)))
+  | .throw => "throw"
+
+def runC (ws : List String) : String :=
+  match ws with
+  | [na, va, l, no, le, en] =>
+    let nargs := nat! na
+    let variadic := b! va
+    let g := gatewayIn nargs variadic (nat! l)
+    if g.oob then "OOB" else
+    let nfixed := if variadic then nargs - 1 else nargs
+    let vals := (List.range g.len).map (fun i => slotVal (g.slot i))
+    "fixed=[" ++ ",".intercalate (vals.take nfixed) ++ "] tail=[" ++ ",".intercalate (vals.drop nfixed) ++ "] -> " ++
+      showCallResult (nat! no) (gatewayOut (nat! no) (b! le) (b! en))
+  | _ => "BADLINE"
+
+def runJ (ws : List String) : String :=
+  match ws with
+  | [nf, va, tl, no, le, th] =>
+    let nfixed := nat! nf
+    let n := jsArgCount nfixed (b! va) (nat! tl)
+    let args := (List.range n).map (fun j => match jsArg nfixed j with
+      | .fixed p => toString (10 + p)
+      | .tailElem k => toString (100 + k))
+    "args=[" ++ ",".intercalate args ++ "] -> " ++
+      -- the script function returns the number 7: not convertible when the only result type is `error`
+      (match jsFuncOutcome (nat! no) (b! le) (b! th) (nat! no == 1 && b! le) with
+       | .goPanic => "gopanic"
+       | .results first err => "first=" ++ (if first then "js" else "zero") ++ " err=" ++ (if err then "set" else "nil"))
+  | _ => "BADLINE"
+
 def handle (line : String) : String :=
   match words line with
   | "W" :: rest => runW rest
@@ -276,6 +321,8 @@ def handle (line : String) : String :=
   | "S" :: rest => runS rest
   | "X" :: rest => runX rest
   | "M" :: rest => runM rest
+  | "C" :: rest => runC rest
+  | "J" :: rest => runJ rest
   | _ => "BADLINE"
 
 def main : IO Unit := lineMap handle
